@@ -5,6 +5,7 @@ import GSProofs.Lemmas.LoaderKahn
 import GSProofs.Lemmas.LoaderSched
 import GSProofs.Lemmas.LoaderComplete
 import GSProofs.Lemmas.LoaderReplay
+import GSProofs.Lemmas.LoaderReplaySpec
 import GS.Model.Responder
 /-!
 # C02 — A single request retrieves every block that either peer can supply
@@ -338,6 +339,34 @@ example :
   · simp [root, pre', n, post, rem, respItemsW, skipSub]
     decide
 
+/-- **the honest response of `complete_remote_start` / `complete_prefix` is the responder
+    specification** (`Lemmas/LoaderReplaySpec.lean`): for every labelled link tree `t` of the responder
+    model, every pre-order flattening `lt` of it (`FlatT t 0 lt`: same cids in pre-order, depths =
+    tree depths; paths and visit counts arbitrary), every responder store `rem` and every requested
+    do-not-send-first-blocks value `w` (no do-not-send-cids, no competing request in the dedup scope),
+    `respItemsW rem lt [] w` and `respondSpec t rem {skip := w}` list the same links with the same
+    present flags and the same block attachments.  `respondSpec` is what the operational responder
+    produces for every batching (`C03.refines`). -/
+theorem honest_response_is_spec (rem : Cid → Bool) (t : GS.Responder.LT) (lt : LT) (h : FlatT t 0 lt) (w : Nat) :
+    (respItemsW rem lt [] w).map viewL =
+      (GS.Responder.respondSpec t rem { skip := (w : Int) } (fun _ => false)).1.map viewR :=
+  respItemsW_spec rem t lt h w
+
+/-- the same without skip extension (the response of `complete_remote_start`) -/
+theorem honest_response_is_spec_noskip (rem : Cid → Bool) (t : GS.Responder.LT) (lt : LT) (h : FlatT t 0 lt) :
+    (respItems rem lt []).map viewL = (GS.Responder.respondSpec t rem {} (fun _ => false)).1.map viewR :=
+  respItems_spec rem t lt h
+
+/-- non-vacuity: the link tree of the example above is a flattening of its labelled tree -/
+example :
+    FlatT (.node 9 [.node 1 [.node 3 [], .node 4 []], .node 2 [], .node 5 []]) 0
+      [⟨9, [], 0, 0, 0⟩, ⟨1, [0, 1], 1, 0, 0⟩, ⟨3, [0, 1, 0], 2, 0, 0⟩, ⟨4, [0, 1, 1], 2, 0, 0⟩, ⟨2, [0, 2], 1, 0, 0⟩,
+       ⟨5, [1], 1, 0, 0⟩] := by
+  simp only [FlatT, FlatL]
+  refine ⟨_, _, rfl, rfl, rfl, [_, _, _], [_, _], rfl, ⟨_, _, rfl, rfl, rfl, [_], [_], rfl, ⟨_, _, rfl, rfl, rfl, rfl⟩,
+    [_], [], rfl, ⟨_, _, rfl, rfl, rfl, rfl⟩, rfl⟩, [_], [_], rfl, ⟨_, _, rfl, rfl, rfl, rfl⟩, [_], [], rfl,
+    ⟨_, _, rfl, rfl, rfl, rfl⟩, rfl⟩
+
 /-
 ## Coverage of the completeness theorem, and what is still not a theorem
 
@@ -357,8 +386,6 @@ lacks it too) and `complete_prefix` (0 < N < |lt|).  The excluded classes are in
 
 Still not theorems (evidence: the reference-traversal oracle over the real code in the streams
 `loader`, `requestor`, `exchange`, plus model/implementation correspondence):
-* `respItemsW` / `respItems` = `Responder.respondSpec` is shown on examples, not for all trees (needs
-  a flattening of the responder model's labelled tree `Responder.LT` to the pre-order list `LT`);
 * `complete_remote_start` / `complete_prefix` are stated for the loader driven by `walk` with the
   whole response ingested as ONE message before the retried load and the response closed; other
   batchings and interleavings are covered by `kahn_schedule` (any valid schedule = messages first),
